@@ -261,12 +261,43 @@ AMF_ASSUME = ["Amf0.tla is a faithful reading of the AMF0 specification (checked
               "the harness logger; TLC; ndJsonDeserialize"]
 
 
+def amf_gen_logs(out, wd, tier):
+    """S2 for AMF0: TLC enumerates a universe of value sequences (Gen_Amf0.tla), checks the reference codec on each and
+    prints each reference encoding; the harness runs every encoding, every strict prefix and bad-marker variants through
+    the real decoder and re-encodes the decoded values with the real encoder."""
+    cfg = os.path.join(wd, "Gen_Amf0_%s.cfg" % tier)
+    vlib.write_cfg(cfg, spec="GenSpec", constants={"Deep": True, "Deeper": tier != "quick"},
+                   invariants=["RoundTrip", "PrefixOK", "BadMarker", "AllRepresentable", "Emit"])
+    r = vlib.tlc("Gen_Amf0.tla", cfg, wd, workers=4, timeout=900, xss="256m", xmx="6g")
+    if r.get("timeout") or not r["completed"] or r["violated"]:
+        log(r["out"][-2000:])
+        raise ToolError("S2 generation Gen_Amf0 failed (%s)" % (r["violated"] or "incomplete"))
+    encs = [json.loads(line)[len("@@AMF|"):] for line in r["out"].splitlines() if line.startswith('"@@AMF|')]
+    efile = os.path.join(wd, "Gen_Amf0.enc.ndjson")
+    with open(efile, "w") as f:
+        f.write("\n".join(encs) + "\n")
+    vlib.build_harness()
+    shards = 4
+
+    def gen(i):
+        path = os.path.join(wd, "amf_gen_%d.ndjson" % i)
+        q = vlib.harness(["amf", "gen", i, shards, efile, "--out", path])
+        return path, vlib.last_json(q.stdout)
+    logs = vlib.parallel([(lambda i=i: gen(i)) for i in range(shards)], nproc=4)
+    out.cov["s2"] = {"model": "Gen_Amf0", "universe": r["distinct"], "encodings_replayed": len(encs),
+                     "design_invariants": "RoundTrip, PrefixOK, BadMarker held on the whole universe",
+                     "cases_on_real_codec": sum(i.get("cases", 0) for _, i in logs)}
+    if len(encs) < 500:
+        raise ToolError("S2 generation Gen_Amf0: too few encodings (%d)" % len(encs))
+    return logs
+
+
 def check_C04(tier):
     out = Outcome("C04", tier, "model_checking")
     wd = vlib.workdir("C04")
     r = vlib.model_check("MC_Amf0.tla", "MC_Amf0_deep.cfg" if tier == "thorough" else "MC_Amf0_quick.cfg", wd)
     out.add_s1(r, "MC_Amf0 (reference Enc/Dec round trip, small universe, exhaustive)")
-    logs = amf_logs(wd, "enc", tier)
+    logs = amf_logs(wd, "enc", tier) + amf_gen_logs(out, wd, tier)
     # RT = decode(encode(v)) = v; ENC "cannot express" = encoding succeeded with bytes that cannot decode to v
     amf_validate(out, logs, wd, lambda v: v["class"] == "RT" or (v["class"] == "ENC" and "cannot express" in v["why"]), "c04")
     s5(out, "Trace_Amf0.tla", {}, logs[0][0], "amf", wd)
@@ -282,7 +313,7 @@ def check_C12(tier):
     wd = vlib.workdir("C12")
     r = vlib.model_check("MC_Amf0.tla", "MC_Amf0_deep.cfg" if tier == "thorough" else "MC_Amf0_quick.cfg", wd)
     out.add_s1(r, "MC_Amf0")
-    logs = amf_logs(wd, "enc", tier) + amf_logs(wd, "dec", tier)
+    logs = amf_logs(wd, "enc", tier) + amf_gen_logs(out, wd, tier) + amf_logs(wd, "dec", tier)
     amf_validate(out, logs, wd, lambda v: v["class"] in ("ENC", "DEC"), "c12")
     sample_events(out, logs[-1][0], ("Dec",), n=3)
     out.assumptions = AMF_ASSUME
